@@ -207,7 +207,14 @@ func (g *histGen) ta(name string) step {
 
 func (g *histGen) cc(addr string) step {
 	h, p := splitHostPort(addr)
-	return step{"cc", mkPacket(tChannel, bodyChannel(p, append(utf16le(h), 0, 0)))}
+	name := append(utf16le(h), 0, 0)
+	switch g.rng.Intn(5) {
+	case 0: // further resource names and alternate names: carried by the protocol, inert for the gateway
+		return step{"cc", mkPacket(tChannel, bodyChannelMulti(p, [][]byte{name, append(utf16le("localhost"), 0, 0)}, nil))}
+	case 1:
+		return step{"cc", mkPacket(tChannel, bodyChannelMulti(p, [][]byte{name}, [][]byte{append(utf16le("localhost"), 0, 0), append(utf16le("127.0.0.1"), 0, 0)}))}
+	}
+	return step{"cc", mkPacket(tChannel, bodyChannel(p, name))}
 }
 
 func (g *histGen) data(n int) step { return step{"data", mkPacket(tData, bodyData(g.randBytes(n)))} }
